@@ -272,12 +272,27 @@ func init() {
 				}
 			}
 		}
+		// the limit of skipped attempts from both sides: an action that can run on the 100th attempt of a step (99 attempts skipped
+		// before drawing) does run, is followed by the invariant and fails nothing; with 100 skipped attempts Repeat gives up
+		for _, period := range []int{100, 101, 2, 37} {
+			seed := r.u64() | 1
+			m.tag("late-action")
+			m.eval(fmt.Sprint("late-action ", period), true)
+			if what := c08LateAction(period, seed); what != "" {
+				m.violate(violation{"C08", "late-action", what, map[string]string{"period": fmt.Sprint(period), "seed": fmt.Sprint(seed)}})
+			}
+		}
 		// all actions skip: Repeat must report a failure, not loop
 		run := runCheckTB(mustSX("((repeat (act (emit 100) (skip)) (act (emit 101) (skip))))"), baseFlags(), "c08", nil)
 		m.eval("all-skip", true)
 		if kind, _, msg := verdictMsg(run.verdict); kind != "failed" || !strings.HasPrefix(msg, "can't_find") {
 			m.violate(violation{"C08", "stuck", "Repeat with only skipping actions gives " + run.verdict, map[string]string{}})
 		}
+	}
+	replayers["late-action"] = func(v violation, tmp string) (bool, string) {
+		seed, _ := strconv.ParseUint(v.Params["seed"], 10, 64)
+		what := c08LateAction(atoiS(v.Params["period"]), seed)
+		return what != "", what
 	}
 	replayers["discipline"] = func(v violation, tmp string) (bool, string) {
 		prog := mustSX(v.Params["prog"])
@@ -290,6 +305,50 @@ func init() {
 		}
 		return false, ""
 	}
+}
+
+// one action that can run on attempt `period` of every step only (the attempts before it skip without drawing)
+func c08LateAction(period int, seed uint64) string {
+	var log []string
+	n := 0
+	acts := map[string]func(*rapid.T){
+		"A": func(t *rapid.T) {
+			n++
+			if n%period != 0 {
+				t.Skip("not yet")
+			}
+			log = append(log, "A")
+		},
+		"": func(t *rapid.T) { log = append(log, "Check") },
+	}
+	fl := baseFlags()
+	fl.Checks = 3
+	fl.Seed = seed
+	tb := newRecTB("c08late")
+	withFlags(fl, func() {
+		runTB(func() {
+			rapid.VerifCheckTB(tb, farDeadline(), func(t *rapid.T) {
+				n = 0
+				log = append(log, "|")
+				t.Repeat(acts)
+			})
+		})
+	})
+	kind, _, msg := verdictMsg(tbVerdict(tb))
+	what := ""
+	if period <= 100 {
+		if kind != "pass" {
+			what = fmt.Sprintf("an action that runs on attempt %d of every step: Check reports %s", period, tbVerdict(tb))
+		}
+		for k, e := range log {
+			if e == "A" && (k+1 >= len(log) || log[k+1] != "Check") {
+				what = fmt.Sprintf("an action that runs on attempt %d of a step was not followed by the invariant (%v)", period, log[max(0, k-2):min(len(log), k+3)])
+			}
+		}
+	} else if kind != "failed" || !strings.HasPrefix(msg, "can't_find") {
+		what = fmt.Sprintf("%d skipped attempts in a row: Check reports %s", period-1, tbVerdict(tb))
+	}
+	return what
 }
 
 // ---------------------------------------------------------------- C10: contexts and cleanups (native property)
@@ -1778,6 +1837,15 @@ func raceScenario(which string) {
 			rapid.SliceOfBytesMatching(`[a-z]{2,12}`).AsAny(),
 			rapid.Map(rapid.StringMatching(`(ab|cd)+x?`), func(s string) any { return s }),
 			rapid.SliceOfN(rapid.Byte(), 1, 6).AsAny(),
+			// strings of every constructor: bounded in runes, bounded in bytes, over a rune table, unbounded
+			rapid.StringN(1, 8, 8).AsAny(),
+			rapid.StringN(2, 6, 64).AsAny(),
+			rapid.StringOfN(rapid.RuneFrom([]rune{'a', 'é', '€', '😀'}), 0, 6, 12).AsAny(),
+			rapid.StringOf(rapid.RuneFrom(nil, unicode.Greek)).AsAny(),
+			rapid.String().AsAny(),
+			rapid.MapOfN(rapid.StringN(0, 3, 3), rapid.Float64Range(-1, 1), 0, 3).AsAny(),
+			rapid.OneOf(rapid.StringN(1, 4, 4), rapid.SampledFrom([]string{"x", "yy"})).AsAny(),
+			rapid.Permutation([]string{"p", "q", "r"}).AsAny(),
 		}
 		var wg sync.WaitGroup
 		results := make([]string, 8)
